@@ -824,6 +824,34 @@ pub fn c13(ctx: &Ctx) -> Report {
             ctx.violation(format!("C13:{sig}"), what.clone(), json!({"engine": "c13", "phase": p}), 0);
         }
     }
+    // Part B, rustls half: the TLS-handshake stall phases against the other backend (second build)
+    let rustls_bin = "/verif/target/vh-rustls/release/vh-rustls";
+    let mut rustls_phases = 0u64;
+    match std::process::Command::new(rustls_bin).arg("--handshake-stall").stderr(std::process::Stdio::null()).output() {
+        Ok(o) => {
+            let mut done = false;
+            for line in String::from_utf8_lossy(&o.stdout).lines() {
+                if let Ok(v) = serde_json::from_str::<serde_json::Value>(line) {
+                    match v["t"].as_str() {
+                        Some("v") => ctx.violation(v["sig"].as_str().unwrap().to_string(), v["what"].as_str().unwrap().to_string(), v["case"].clone(), 0),
+                        Some("done") => {
+                            done = true;
+                            rustls_phases = v["n"].as_u64().unwrap_or(0);
+                        }
+                        _ => {}
+                    }
+                }
+            }
+            if !done {
+                eprintln!("MACHINERY: vh-rustls --handshake-stall did not finish");
+                std::process::exit(2);
+            }
+        }
+        Err(e) => {
+            eprintln!("MACHINERY: cannot run {rustls_bin}: {e}");
+            std::process::exit(2);
+        }
+    }
     // Part A
     let scs = scenarios(ctx.tier);
     let pool = rayon::ThreadPoolBuilder::new().num_threads(48).build().unwrap();
@@ -864,7 +892,8 @@ pub fn c13(ctx: &Ctx) -> Report {
     rep.set("deviation_bound_completed", ctx.tier.pick(2, 3) as u64);
     rep.set("max_schedule_length", max_depth);
     rep.set("executions_retried_for_timing", retried);
-    rep.set("phases_swept", ps.len() as u64);
+    rep.set("phases_swept", ps.len() as u64 + rustls_phases);
+    rep.set("phases_swept_rustls_backend", rustls_phases);
     rep.set("slowest_phase_ms", slowest.as_millis() as u64);
     rep.set("exhaustive", true);
     rep.set(
@@ -878,6 +907,12 @@ pub fn c13(ctx: &Ctx) -> Report {
 }
 
 pub fn replay(v: &serde_json::Value) -> i32 {
+    if v["case"]["rustls_handshake_stall"] == true {
+        let st = std::process::Command::new("/verif/target/vh-rustls/release/vh-rustls").arg("--handshake-stall").output().expect("vh-rustls");
+        let text = String::from_utf8_lossy(&st.stdout).to_string();
+        println!("{text}");
+        return if text.contains("\"t\":\"v\"") { 1 } else { 0 };
+    }
     if !v["case"]["phase"].is_null() {
         let p: Phase = serde_json::from_value(v["case"]["phase"].clone()).expect("phase");
         let (el, outcome, viol) = run_phase(&p);
